@@ -24,7 +24,7 @@ func runFsmScenarios(name string, args []string) error {
 	n := rf.count(300, 5000)
 	sum := &Summary{Engine: name, Seed: rf.Seed}
 	if name == "c01" {
-		sum.Rule = "random histories on the real fsm.FSM (Pebble on MemFS): apply batches of 1-4 entries (put, delete, range delete with prev/count, put/delete batches, nested sequences, dummy, transactions) over 13 colliding keys (prefixes of each other, 0x00/0xFF bytes) and empty values, each followed by reads (single, [a,b), \\0 wildcard on either side, inverted, keys-only, count-only, limits), index reads and occasional reopen/snapshot transfer; distinct = distinct histories; non-trivial = at least one range delete or overwrite with prev and one range read returning >= 2 pairs"
+		sum.Rule = "random histories on the real fsm.FSM (Pebble on MemFS): apply batches of 1-4 entries (put, delete, range delete with prev/count, put/delete batches, nested sequences, dummy, transactions) over 13 colliding keys (prefixes of each other, 0x00/0xFF bytes; one history in 30 over 1018-1024 byte keys sharing a 1019 byte prefix) and empty values, each followed by reads (single, [a,b), \\0 wildcard on either side, inverted, keys-only, count-only, limits), index reads and occasional reopen/snapshot transfer; distinct = distinct histories; non-trivial = at least one range delete or overwrite with prev and one range read returning >= 2 pairs"
 	} else {
 		sum.Rule = "transaction-heavy histories on the real fsm.FSM: 0-3 predicates mixing EQUAL/GREATER/LESS/NOT_EQUAL, existence-only, single-key and range predicates over overlapping keys; 0-4 operations per branch mixing range reads, puts with/without prev, single and range deletes; transactions at random positions of apply batches and nested in sequences; every read-only transaction is also run through the read-only path; distinct = distinct histories; non-trivial = at least one transaction taking each branch"
 	}
@@ -42,6 +42,15 @@ func runFsmScenarios(name string, args []string) error {
 		var steps []gStep
 		idx := uint64(r.Intn(3))
 		nb := 2 + r.Intn(6)
+		if c%30 == 7 {
+			// keys at the size limit of the API (1024 bytes) that agree on their first 1019 bytes, and their common prefix
+			p := bytes.Repeat([]byte("k"), 1019)
+			ext := func(sfx string) []byte { return append(append([]byte{}, p...), sfx...) }
+			g.keys = [][]byte{p, ext("x"), ext("xyzzy"), ext("y"), ext("\x00"), p[:1018], []byte("a")}
+			g.ends = [][]byte{{0}, ext("xz"), ext("y"), ext("zzzzz"), p, []byte("l")}
+			nb = 2 + r.Intn(2)
+			hs.Inc("long-key-history")
+		}
 		for b := 0; b < nb; b++ {
 			steps = append(steps, gStep{Kind: 0, Entries: g.entries(1+r.Intn(4), &idx)})
 			hs.Inc("apply")
